@@ -1004,4 +1004,116 @@ theorem each_token_once_of_power {stk : Staking} {votes : List Vote} {counts : L
       apply mul_le_mul_of_nonneg_left h5; positivity
     nlinarith
 
+/-! ## permutation invariance of the two Go maps (`results`, `currValidators`) -/
+
+theorem dec_add_comm (a b : Dec) : a.add b = b.add a := by simp [Dec.add, Int.add_comm]
+theorem dec_add_right_comm (a b c : Dec) : (a.add b).add c = (a.add c).add b := by
+  simp only [Dec.add, Dec.mk.injEq]; omega
+
+/-- inserting/adding two contributions into the results map commutes -/
+theorem addTo_comm (r : Results) (k1 k2 : Nat) (v1 v2 : Dec) :
+    addTo (addTo r k1 v1) k2 v2 = addTo (addTo r k2 v2) k1 v1 := by
+  induction r with
+  | nil =>
+    rcases Nat.lt_trichotomy k1 k2 with c | c | c
+    · simp (disch := omega) only [addTo, if_pos, if_neg]
+    · subst c; simp (disch := omega) only [addTo, if_pos, if_neg, if_true, ↓reduceIte, Nat.lt_irrefl, dec_add_comm v1 v2]
+    · simp (disch := omega) only [addTo, if_pos, if_neg]
+  | cons x t ih =>
+    obtain ⟨k', v'⟩ := x
+    rcases Nat.lt_trichotomy k1 k' with a | a | a <;> rcases Nat.lt_trichotomy k2 k' with b | b | b <;>
+      rcases Nat.lt_trichotomy k1 k2 with c | c | c
+    all_goals first
+      | (exfalso; omega)
+      | (subst_vars; simp (disch := omega) only [addTo, if_pos, if_neg, if_true, if_false, ↓reduceIte, Nat.lt_irrefl, ih, dec_add_comm v1 v2, dec_add_right_comm v' v1 v2])
+
+/-- the results map as a fold over the list of all (pool, subPower) contributions -/
+def applyContribs (cs : List (Nat × Dec)) (r : Results) : Results := cs.foldl (fun r c => addTo r c.1 c.2) r
+
+/-- permutation invariance of the `results` map fold: the order in which Go iterates voters, delegations and the
+    `currValidators` map does not change the tally -/
+theorem results_perm {l1 l2 : List (Nat × Dec)} (h : l1.Perm l2) : ∀ r, applyContribs l1 r = applyContribs l2 r := by
+  induction h with
+  | nil => intro r; rfl
+  | cons x _ ih => intro r; simp only [applyContribs, List.foldl_cons]; exact ih _
+  | swap x y l => intro r; simp only [applyContribs, List.foldl_cons]; rw [addTo_comm]
+  | trans _ _ ih1 ih2 => intro r; rw [ih1, ih2]
+
+theorem addWeighted_eq (p : Dec) (pws : List (Nat × Dec)) : ∀ r,
+    addWeighted p pws r = applyContribs (pws.map fun x => (x.1, p.mul x.2)) r := by
+  induction pws with
+  | nil => intro r; rfl
+  | cons x t ih => intro r; obtain ⟨k, w⟩ := x; simp only [addWeighted, List.map_cons, applyContribs, List.foldl_cons]; exact ih _
+
+theorem addWeighted_comm (p1 p2 : Dec) (w1 w2 : List (Nat × Dec)) (r : Results) :
+    addWeighted p1 w1 (addWeighted p2 w2 r) = addWeighted p2 w2 (addWeighted p1 w1 r) := by
+  simp only [addWeighted_eq, applyContribs, ← List.foldl_append]
+  exact results_perm List.perm_append_comm r
+
+/-- effect of one validator in the second loop, independent of the accumulator -/
+def valDelta (val : ValInfo) : Res (Option (Dec × List (Nat × Dec))) :=
+  if val.weights.isEmpty then .ok none else
+  if val.shares.raw = 0 then .panic .divZero else
+  match parseWeights val.weights with
+  | none => .err "invalid-weight"
+  | some pws => .ok (some (Gauge.power (val.shares.sub val.deductions) val.bonded val.shares, pws))
+
+def applyDelta (acc : Acc) : Option (Dec × List (Nat × Dec)) → Acc
+  | none => acc
+  | some (p, pws) => { acc with res := addWeighted p pws acc.res, total := acc.total.add p, muls := acc.muls + pws.length }
+
+theorem valStep_eq (acc : Acc) (val : ValInfo) : valStep acc val = (valDelta val).bind fun d => .ok (applyDelta acc d) := by
+  unfold valStep valDelta
+  by_cases h1 : val.weights.isEmpty = true
+  · simp [h1, Res.bind, applyDelta]
+  · by_cases h2 : val.shares.raw = 0
+    · simp [h1, h2, Res.bind]
+    · cases h3 : parseWeights val.weights <;> simp [h1, h2, h3, Res.bind, applyDelta]
+
+theorem applyDelta_comm (acc : Acc) (d1 d2 : Option (Dec × List (Nat × Dec))) :
+    applyDelta (applyDelta acc d1) d2 = applyDelta (applyDelta acc d2) d1 := by
+  cases d1 with
+  | none => rfl
+  | some x =>
+    cases d2 with
+    | none => rfl
+    | some y =>
+      obtain ⟨p1, w1⟩ := x
+      obtain ⟨p2, w2⟩ := y
+      simp only [applyDelta, Acc.mk.injEq, true_and]
+      exact ⟨addWeighted_comm _ _ _ _ _, dec_add_right_comm _ _ _, by omega⟩
+
+/-- permutation invariance of the `currValidators` map iteration (second loop of `Tally`): any order in which Go's
+    randomised map iteration visits the validators yields the same accumulator -/
+theorem valLoop_perm {vs1 vs2 : List ValInfo} (h : vs1.Perm vs2) :
+    ∀ acc a, valLoop vs1 acc = .ok a → valLoop vs2 acc = .ok a := by
+  induction h with
+  | nil => intro acc a h; exact h
+  | cons x _ ih =>
+    intro acc a h
+    simp only [valLoop] at h ⊢
+    obtain ⟨b, h1, h2⟩ := Bank.bind_ok h
+    rw [h1]; exact ih b a h2
+  | swap x y l =>
+    intro acc a h
+    simp only [valLoop] at h ⊢
+    obtain ⟨b1, h1, h⟩ := Bank.bind_ok h
+    obtain ⟨b2, h2, h3⟩ := Bank.bind_ok h
+    rw [valStep_eq] at h1 h2
+    obtain ⟨dy, e1, e2⟩ := Bank.bind_ok h1
+    obtain ⟨dx, e3, e4⟩ := Bank.bind_ok h2
+    simp only [Res.ok.injEq] at e2 e4
+    subst e2 e4
+    rw [valStep_eq acc x, e3]
+    simp only [Res.bind]
+    rw [valStep_eq _ y, e1]
+    simp only [Res.bind]
+    rw [applyDelta_comm]
+    exact h3
+  | trans _ _ ih1 ih2 => intro acc a h; exact ih2 _ _ (ih1 _ _ h)
+
+/-- non-vacuity: two contributions to different pools and one to the same pool, in two orders -/
+example : applyContribs [(1, ⟨5⟩), (0, ⟨7⟩), (1, ⟨2⟩)] [] = [(0, ⟨7⟩), (1, ⟨7⟩)] ∧
+          applyContribs [(0, ⟨7⟩), (1, ⟨2⟩), (1, ⟨5⟩)] [] = [(0, ⟨7⟩), (1, ⟨7⟩)] := by decide
+
 end Sunrise.C17
